@@ -3270,13 +3270,15 @@ Proof.
     + destruct dr.
       * destruct (copy_path_m_nf muri_empty src s Hnf) as (d1 & s1 & E1 & R1 & K1 & H1 & L1). rewrite E1. cbv beta iota. cbn [negb].
         pose proof (st_le_nofault _ _ L1 Hnf) as N1.
-        destruct (fix_ambiguity_m_step (set_m_abs true d1) s1 N1) as (d2 & s2 & E2 & R2 & K2 & H2 & L2). rewrite E2. cbv beta iota. cbn [negb].
+        destruct (fet_m_step (set_m_abs true d1) s1) as (dt & st & Et & Rt & Kt & Ht & Lt). rewrite Et. cbv beta iota.
+        pose proof (st_le_nofault _ _ Lt N1) as Nt.
+        destruct (fix_ambiguity_m_step dt st Nt) as (d2 & s2 & E2 & R2 & K2 & H2 & L2). rewrite E2. cbv beta iota. cbn [negb].
         unfold add_base_post. cbn [fst snd]. split; [reflexivity|]. split; [|split; [|split]].
-        -- rewrite erase_borrow_fragment, erase_borrow_query, R2, erase_set_abs, R1.
+        -- rewrite erase_borrow_fragment, erase_borrow_query, R2, Rt, erase_set_abs, R1.
            change (erase muri_empty) with empty_uri. reflexivity.
-        -- apply Kf, K2, bwf_set_abs, K1, bwf_empty.
-        -- intros _ _. apply H2. apply (H1 (fun x (Hx : t_val (m_ipFuture muri_empty) = Some x) => ltac:(discriminate Hx))).
-        -- eapply st_le_trans; [exact L1|exact L2].
+        -- apply Kf, K2, Kt, bwf_set_abs, K1, bwf_empty.
+        -- intros _ _. apply H2, Ht. apply (H1 (fun x (Hx : t_val (m_ipFuture muri_empty) = Some x) => ltac:(discriminate Hx))).
+        -- eapply st_le_trans; [exact L1|]. eapply st_le_trans; [exact Lt|exact L2].
       * change (pathSegs (erase src)) with (map sg_text (m_segs src)).
         change (pathSegs (erase base)) with (map sg_text (m_segs base)).
         destruct (skip_common (map sg_text (m_segs src)) (map sg_text (m_segs base))) as [s' b'].
